@@ -74,6 +74,12 @@ type world struct {
 	acceptCnt map[int]*atomic.Int64 // by port
 	refused   []*litefwd.RefusedPort
 	defPort   *litefwd.RefusedPort // 25565 reserved (refusing), nil if not available
+	// hostile family only (hostile_test.go): every port's kind, the non-healthy listeners
+	// and the ports whose dials time out
+	kind   map[int]string
+	byKind map[string][]int
+	extra  []*litefwd.Backend
+	holes  []*litefwd.Blackhole
 }
 
 func addCounters(pairs ...any) {
@@ -123,6 +129,20 @@ func (w *world) close() {
 	if w.defPort != nil {
 		w.defPort.Release()
 	}
+	for _, b := range w.extra {
+		b.Close()
+	}
+	for _, bh := range w.holes {
+		bh.Release()
+	}
+}
+
+// isHealthy: a listener that accepts and serves (a failed try to it can only be overload).
+func (w *world) isHealthy(port int) bool {
+	if w.kind == nil {
+		return w.isAccepting(port)
+	}
+	return w.kind[port] == kHealthy
 }
 
 func (w *world) isAccepting(port int) bool { _, ok := w.acceptCnt[port]; return ok }
@@ -164,7 +184,17 @@ type attempt struct {
 	FwdTo     string
 	Guard     bool
 	Done      bool // attempt finished (forwarded+greeting, or connection closed by Gate)
+	// hostile family
+	Path       string   // "login" (lite.Forward) or "status" (lite.ResolveStatusResponse)
+	TryErrs    []string // class of each failed try, from Gate's error text
+	Greeted    bool     // the healthy backend's greeting byte reached the client
+	Aborted    bool     // Gate gave up after a successful dial ("failed to empty client buffer")
+	AnswerPort int      // status: port named in the answer the client side received
 }
+
+// latencyUnknown marks a backend that Gate measured itself (successful status request): it is
+// measured, but the harness does not know the value.
+const latencyUnknown = time.Duration(-1)
 
 // open starts a connection and waits until it is either forwarded (greeting from the
 // backend arrived, which lite.Forward can only deliver after TrackConnection) or closed.
@@ -208,11 +238,16 @@ type hist struct {
 	Host     string
 	Latency  map[string]int // ms, by entry string
 	Steps    []string
+	Kinds       []string `json:",omitempty"` // hostile family: kind of each entry
+	StatusCache bool     `json:",omitempty"` // hostile family: route's ping cache enabled
 }
 
 func checkAttempt(r *lib.Run, w *world, h *hist, a *attempt, openBy map[string]int, openBySpelling map[string]int, measured map[string]time.Duration, aliasFree bool) {
 	wit := func(extra map[string]any) map[string]any {
 		m := map[string]any{"strategy": h.Strategy, "backends": h.Backends, "tries": a.Tries, "forwarded_to": a.FwdTo, "history": h.Steps}
+		if a.Path != "" {
+			m["path"], m["backend_kinds"], m["failed_try_classes"] = a.Path, h.Kinds, a.TryErrs
+		}
 		for k, v := range extra {
 			m[k] = v
 		}
@@ -260,17 +295,25 @@ func checkAttempt(r *lib.Run, w *world, h *hist, a *attempt, openBy map[string]i
 	}
 	// (2) the attempt fails only after every distinct backend failed
 	if !a.Forwarded {
-		if len(triedKeys) < len(cfgKeys) {
-			r.Violation("attempt-failed-before-all-backends-tried", "the connection was closed although not every distinct backend of the route had been tried",
+		// (Gate giving up after a successful dial because the client's buffered bytes could
+		// not be written is not an attempt that "failed": the statement is silent; not judged.)
+		if len(triedKeys) < len(cfgKeys) && !a.Aborted {
+			sig := "attempt-failed-before-all-backends-tried"
+			if n := len(a.TryErrs); n > 0 && a.TryErrs[n-1] == "dial-timeout" {
+				sig += "-after-dial-timeout"
+			}
+			r.Violation(sig, "the attempt failed (connection closed / no status) although not every distinct backend of the route had been tried",
 				wit(map[string]any{"distinct_configured": cfgKeys, "distinct_tried": triedKeys}))
 		}
 		for _, k := range triedKeys {
-			if _, _, p, _, ok := canon(k); ok && w.isAccepting(p) {
+			if _, _, p, _, ok := canon(k); ok && w.isHealthy(p) {
 				r.Inconclusive("a try to an accepting listener failed (listener overload?)")
 			}
 		}
 	} else {
-		if _, _, p, _, _ := canon(a.FwdTo); !w.isAccepting(p) {
+		if _, _, p, _, _ := canon(a.FwdTo); w.kind[p] == kTimeout {
+			r.Inconclusive("a dial to a port whose SYNs should be dropped succeeded (accept queue drained?)")
+		} else if !w.isAccepting(p) {
 			r.Violation("forwarded-to-refusing-backend", "Forward reports forwarding to a backend that refuses connections", wit(nil))
 		}
 	}
@@ -347,7 +390,7 @@ func checkAttempt(r *lib.Run, w *world, h *hist, a *attempt, openBy map[string]i
 						wit(map[string]any{"chosen": t, "unmeasured": o, "latencies_ms": h.Latency}))
 					return
 				}
-				if chosenMeasured && oMeasured && lo < measured[k] {
+				if chosenMeasured && oMeasured && lo != latencyUnknown && measured[k] != latencyUnknown && lo < measured[k] {
 					r.Violation("lowest-latency-slower-before-faster", "lowest-latency: a slower backend was chosen over a faster one",
 						wit(map[string]any{"chosen": t, "faster": o, "latencies_ms": h.Latency}))
 					return
@@ -365,9 +408,12 @@ var strategies = []string{"sequential", "", "random", "round-robin", "least-conn
 func TestC30(t *testing.T) {
 	r := lib.Start(t, "C30")
 	defer r.Finish()
-	r.Rule("sequential history = fresh StrategyManager, one route (strategy in {sequential, default, random, round-robin, least-connections, lowest-latency}, 1-6 backend entries drawn from 3 accepting loopback listeners, 3 refusing reserved ports and the refusing default port 25565, each in spellings 127.0.0.1/localhost/LOCALHOST/LocalHost, with/without :25565, so exact duplicates, case spellings and default-port spellings occur), then 1-8 steps open-a-connection / close-a-random-open-one, one at a time, through the real lite.Forward; plus a family with a backend template that substitutes to an unparseable address. concurrent run = 1-32 connections opened at once on one shared StrategyManager (random / round-robin / least-connections), half closed, rest closed. distinct = distinct (strategy, backend list, step script); non-trivial = >= 2 entries or >= 2 steps")
+	r.Rule("sequential history = fresh StrategyManager, one route (strategy in {sequential, default, random, round-robin, least-connections, lowest-latency}, 1-6 backend entries drawn from 3 accepting loopback listeners, 3 refusing reserved ports and the refusing default port 25565, each in spellings 127.0.0.1/localhost/LOCALHOST/LocalHost, with/without :25565, so exact duplicates, case spellings and default-port spellings occur), then 1-8 steps open-a-connection / close-a-random-open-one, one at a time, through the real lite.Forward; plus a family with a backend template that substitutes to an unparseable address. concurrent run = 1-32 connections opened at once on one shared StrategyManager (random / round-robin / least-connections), half closed, rest closed. hostile history = 2-5 entries (+ duplicate) whose kinds are drawn per position from {healthy, refusing, dial TIMES OUT (loopback port whose SYNs the kernel drops, configured dial timeout 200 ms), accepts-then-closes, accepts-never-answers} (a third of the lists start with a timing-out backend), all six strategies, then 1-4 steps of login attempt (lite.Forward) / status attempt (lite.ResolveStatusResponse, ping cache on or off) / close, same per-attempt oracle decided on the recorded try log. churn round = 1-3 goroutines opening+closing 10-69 short connections each to one backend (three spellings) while 1-6 goroutines each open one connection to it after a PRNG-chosen spin and hold it, all barrier-released, through TrackConnection (3/4) or IncrementConnection (1/4); at the quiescent point the per-backend count must equal the held connections and least-connections must prefer the backend with fewer. distinct = distinct (strategy, backend list, step script) / churn parameters; non-trivial = >= 2 entries or >= 2 steps")
 	r.Assume("failed dials are observed through Gate's 'failed to try backend' log events (backendAddr value) via an injected logr sink; successful ones additionally by the listeners' accept counters")
 	r.Assume("a forwarded connection is 'open' from the moment the backend's greeting byte reaches the client (lite.Forward pipes only after TrackConnection) until lite.Forward returned after the client closed")
+	r.Assume("a forwarded connection to a backend that sends nothing (or closes at once) is 'open' from Gate's own 'forwarding connection' event (logged after TrackConnection) until lite.Forward returned after the client closed")
+	r.Assume("the per-backend active-connection count is read at quiescent points through the exported accessor StrategyManager.GetOrCreateCounter (the counter object least-connections reads) and through the least-connections choice of the exported GetNextBackend")
+	r.Assume("dial timeouts are stimuli: a loopback listener with backlog 0 and a full accept queue (verified by a probe that timed out); the verdict is taken from the try log under a 30 s watchdog")
 	r.Assume("two entries are the same backend iff equal after lower-casing the host and defaulting the port to 25565 (Gate's own canonicalBackendAddress); DNS aliases are different backends")
 
 	w, err := newWorld(r, true)
@@ -379,7 +425,7 @@ func TestC30(t *testing.T) {
 	r.Set("default_port_25565_reserved", w.defPort != nil)
 
 	nHist := r.N(300, 12000)
-	var attemptsT, forwardedT, failedAttemptsT, multiTryT, conservationChecksT, orderCheckedT int
+	var attemptsT, forwardedT, failedAttemptsT, multiTryT, conservationChecksT, orderCheckedT, perBackendT int
 	stratCountT := map[string]int{}
 	dupKindsT := map[string]int{}
 	var cmu sync.Mutex // guards the counters above
@@ -400,13 +446,13 @@ func TestC30(t *testing.T) {
 		go func(wk int, w *world) {
 			defer swg.Done()
 			rng := r.Rng(fmt.Sprintf("seq-%d", wk))
-			var attempts, forwarded, failedAttempts, multiTry, conservationChecks, orderChecked int
+			var attempts, forwarded, failedAttempts, multiTry, conservationChecks, orderChecked, perBackend int
 			stratCount := map[string]int{}
 			dupKinds := map[string]int{}
 			defer func() {
 				cmu.Lock()
 				defer cmu.Unlock()
-				addCounters(&attemptsT, attempts, &forwardedT, forwarded, &failedAttemptsT, failedAttempts, &multiTryT, multiTry, &conservationChecksT, conservationChecks, &orderCheckedT, orderChecked)
+				addCounters(&attemptsT, attempts, &forwardedT, forwarded, &failedAttemptsT, failedAttempts, &multiTryT, multiTry, &conservationChecksT, conservationChecks, &orderCheckedT, orderChecked, &perBackendT, perBackend)
 				for k, v := range stratCount {
 					stratCountT[k] += v
 				}
@@ -555,6 +601,7 @@ func TestC30(t *testing.T) {
 							map[string]any{"active": got, "open": len(opened), "strategy": strat, "backends": backends, "history": h.Steps})
 					}
 					conservationChecks++
+					perBackend += perBackendCounts(r, sm, h, openBy)
 				}
 				for _, a := range opened {
 					if !a.closeWait() {
@@ -715,6 +762,13 @@ func TestC30(t *testing.T) {
 		r.Distinct(fmt.Sprintf("conc|%s|%v|%d", strat, backends, g))
 	}
 
+	// ---- hostile backends (dial timeouts, accept-close, no-answer; login and status path) ------
+	hostileFamily(r)
+
+	// ---- concurrent churn on the per-backend counters ---------------------------------------------
+	churnFamily(r)
+
+	r.Set("per_backend_count_comparisons_sequential", perBackendT)
 	r.Set("attempts", attempts)
 	r.Set("attempts_forwarded", forwarded)
 	r.Set("attempts_failed_all_backends", failedAttempts)
